@@ -1716,3 +1716,24 @@ def listing_reads_within_span(run, R="MPT"):
                 bad.append(f.loc(t["span"]))
     run.check(n >= 1 and len(listing) == 2 and not bad, R, R + "|listing|reads-within-span", "-", "the listings read a row's bits only inside the row's span (%d read site(s))" % n,
               "a listing reads bits for a row's digits without testing that they lie inside the row's span (%s): with a digit width that does not divide the item size (`base:8` and 8-bit items) the last digit of a row includes bits of the next item" % (", ".join(bad) or "read sites not found"))
+
+
+def listing_excerpt_one_line(run, R="MPT"):
+    """a listing row is one line: the source excerpt put on it has its line breaks replaced (a multi-line string literal or block
+    comment would otherwise split the row, and in the tcgame format leave the comment)"""
+    n, bad = 0, []
+    for f in run.prog.real_fns():
+        if f.kind != "AssocFn" or not re.search(r"::format_(annotated|tcgame)$", f.id):
+            continue
+        ex = [(bi, t) for bi, t in f.calls() if (t.get("resolved") or t.get("callee") or "").endswith("CharCounter::<'a>::get_excerpt")]
+        for bi, t in ex:
+            n += 1
+            cleaned = False
+            for b2, t2 in f.calls():
+                if (t2.get("callee") or "").endswith("<impl str>::replace") and len(t2["args"]) >= 2 and value_depends_on(f, t2["args"][0], t["dest"]["l"]) \
+                        and re.fullmatch(r"[\"']\\+n[\"']", _deep(f, t2["args"][1], 3)):
+                    cleaned = True
+            if not cleaned:
+                bad.append(f.loc(t["span"]))
+    run.check(n >= 2 and not bad, R, R + "|listing|excerpt-one-line", "-", "source excerpts are put on listing rows with their line breaks replaced (%d site(s))" % n,
+              "a listing puts a source excerpt on a row as it is (%s): an item whose source spans several lines (a string literal with a line break) produces a row without position, outside the comment in the tcgame format" % (", ".join(bad) or "excerpt sites not found"))
